@@ -49,6 +49,19 @@ func (w *Worker) findIntrinsic(fn *ssa.Function) intrinsic {
 	if fn.Name() == "init" && fn.Pkg != nil && fn.Pkg != w.eng.Pkg && fn.Signature.Recv() == nil {
 		return nop
 	}
+	if name == "github.com/fxamacker/circlehash.Hash64Uint64x2" {
+		// seed derivation in NewMap: modelled as a fixed mixing function of its
+		// (concrete) arguments; harness digesters do not use the seed.
+		return func(fr *frame, a []value) value {
+			x, y, z := a[0].(T), a[1].(T), a[2].(T)
+			if !x.IsConst() || !y.IsConst() || !z.IsConst() {
+				fr.w.unsupported("circlehash.Hash64Uint64x2 on symbolic input")
+			}
+			h := x.V*0x9E3779B97F4A7C15 ^ (y.V+0x632BE59BD9B4E019)*0xBF58476D1CE4E5B9 ^ z.V
+			h ^= h >> 31
+			return fr.w.tb.Const(64, h|1)
+		}
+	}
 	if fn.Pkg != nil {
 		switch fn.Pkg.Pkg.Path() {
 		case "github.com/fxamacker/circlehash", "github.com/zeebo/blake3", "lukechampine.com/blake3":
